@@ -227,6 +227,11 @@ func scenariosC16(tier string) []Scen {
 	// point; the helper goroutines must be joined and ordered with the next operation (C17's scenarios,
 	// judged here only for races and for helpers outliving their operation)
 	for _, sc := range scenariosC17(tier) {
+		if dd, isDup := sc.Desc.(c17Dup); isDup && dd.Dup == "abort" {
+			// full-duplex use ended by a connection reset: already judged for races by its own oracle
+			out = append(out, sc)
+			continue
+		}
 		d, ok := sc.Desc.(c17Desc)
 		if !ok || len(d.Ops) > 2 {
 			continue
